@@ -326,7 +326,12 @@ impl Agg {
         }
         if let Some(c) = v["counters"].as_object() {
             for (k, x) in c {
-                *self.counters.entry(k.clone()).or_insert(0) += x.as_u64().unwrap_or(0);
+                if k.starts_with("max_") {
+                    let e = self.counters.entry(k.clone()).or_insert(0);
+                    *e = (*e).max(x.as_u64().unwrap_or(0));
+                } else {
+                    *self.counters.entry(k.clone()).or_insert(0) += x.as_u64().unwrap_or(0);
+                }
             }
         }
         self.sim_time_ns += v["sim_time_ns"].as_str().and_then(|s| s.parse::<u128>().ok()).unwrap_or(0);
@@ -407,6 +412,11 @@ pub fn child_main(prop: &PropertyDef, tier: Tier, seed: u64, k: u64, n: u64) -> 
         let total = s.runs(tier);
         let mut idx = k;
         while idx < total {
+            // enough failing runs collected: stop exploring (bounds the time spent under a broken tree)
+            if agg.violations.len() >= 24 {
+                agg.counters.insert("stopped_early_after_24_violating_runs".into(), 1);
+                break;
+            }
             let mut g = Gen::new(run_seed(seed, prop.id, s.name(), idx));
             let params = s.generate(&mut g, tier, idx);
             let want_sample = idx < 2;
@@ -435,6 +445,9 @@ pub fn child_main(prop: &PropertyDef, tier: Tier, seed: u64, k: u64, n: u64) -> 
                 agg.hashes.insert(mix(o.hash, str_hash(s.name())));
             }
             for (kk, vv) in &o.counters {
+                if kk == "schedule_len" {
+                    continue;
+                }
                 *agg.counters.entry(kk.clone()).or_insert(0) += *vv;
             }
             agg.sim_time_ns += o.sim_time_ns as u128;
@@ -447,6 +460,7 @@ pub fn child_main(prop: &PropertyDef, tier: Tier, seed: u64, k: u64, n: u64) -> 
                     agg.violations.push((s.name().to_string(), idx, params.clone(), v.clone()));
                 }
             }
+            *agg.counters.entry("max_schedule_len".into()).or_insert(0) = (*agg.counters.get("max_schedule_len").unwrap_or(&0)).max(o.counters.get("schedule_len").copied().unwrap_or(0));
             if let Some(sm) = o.sample {
                 if agg.samples.len() < 4 {
                     agg.samples.push(json!({"scenario": s.name(), "idx": idx, "params": params, "run": sm}));
